@@ -57,6 +57,9 @@ def run(idx, rep, tier):
         okq, whyq = lp.batch_quantifier(idx, l)
         rep.decide(okq, "batch-quantifier", "lanczos_fact:cond", whyq, detail="" if okq is not False else "quantifier", locs=[idx.loc(fact.module, l.call)])
         basis_aliasing(idx, rep, l, "lanczos_fact:body")
+        if cert.get("ok") is True:
+            from sa.krylov import breakdown_reference
+            breakdown_reference(idx, rep, fact, "breakdown-reference", "lanczos_fact:cond", l, cert["counter_slot"])
     # ---- T symmetric by construction
     n_tri = 0
     for c in df.calls(lanczos.node):
